@@ -25,7 +25,7 @@ ASSUME = ["integer Gregorian calendar arithmetic in refs/timeref.py is the refer
           "ray stand-in (rvmon/shimray.py) replaces the executor for the timed runs; everything else is repository code"]
 SHARDS = {"quick": 4, "thorough": 16}
 BUDGET_S = {"quick": 100, "thorough": 1200}
-DECIDING = ["conv_roundtrip", "conv_monotonic", "sec_roundtrip", "run_steps", "run_epochs", "entry_point"]
+DECIDING = ["conv_roundtrip", "conv_monotonic", "sec_roundtrip", "run_steps", "run_epochs", "clock_readings", "entry_point"]
 
 
 MANIFEST = {
@@ -63,6 +63,15 @@ def _instants(ctx, n):
 
 
 def check_instant(ctx, t: datetime):
+    try:
+        _check_instant(ctx, t)
+    except Exception as e:  # noqa: BLE001
+        # every whole-second instant 1901-2099 is a valid input: a conversion that raises is a violation, not a harness problem
+        ctx.check(False, f"conversion-raised-{type(e).__name__}", f"a time conversion raised {type(e).__name__}: {str(e)[:200]} for the instant {t.isoformat()}",
+                  {"kind": "instant", "t": t.isoformat()}, mon="conv_roundtrip")
+
+
+def _check_instant(ctx, t: datetime):
     from resonaate.physics.time.stardate import JulianDate, ScenarioTime, datetimeToJulianDate, julianDateToDatetime
 
     jd = datetimeToJulianDate(t)
@@ -188,6 +197,14 @@ def check_run(ctx, start: datetime, step: int, dur_s: int, out_step=None):
             orig()
             calls["n"] += 1
             epochs.append(app.clock.datetime_epoch)
+            # the clock's three readings agree after every step: Julian date of the epoch = JD(start + k*step) to within the
+            # resolution of a Julian date (one ulp = 4e-5 s), elapsed seconds = k*step exactly
+            k_ = calls["n"]
+            ref_jd = timeref.jd_float(start + timedelta(seconds=k_ * step))
+            off = (float(app.clock.julian_date_epoch) - ref_jd) * 86400.0
+            ctx.check(abs(off) <= 6e-5 and float(app.clock.time) == float(k_ * step), "clock-julian-date-drift",
+                      f"after {k_} steps of {step}s from {start.isoformat()} the clock's Julian date is {off * 1e3:+.4f} ms off JD(start + k*step); elapsed seconds {float(app.clock.time)!r}",
+                      {"kind": "run", "start": start.isoformat(), "step": step, "dur": dur_s, "out_step": out_step or step}, mon="clock_readings")
 
         app.stepForward = counted
         expected = dur_s // step
